@@ -91,6 +91,7 @@ func run(c *Case) (*outcome, *vkit.Violation, error) {
 	}
 	count := 0
 	var hook func(m *vkit.Msg) error
+	var checkReply func(m *vkit.Msg) error
 	inject := func(in Inject, next *vkit.Msg) {
 		var req proto.Message
 		to := next.To
@@ -171,6 +172,9 @@ func run(c *Case) (*outcome, *vkit.Violation, error) {
 		}
 		m.FromName = &fromName
 		_, err := cl.Net.DeliverRaw(m)
+		if err == nil {
+			_ = checkReply(m) // the reply to a rogue contribution is held to the same share-ownership rule
+		}
 		if in.Caller == "bystander-peer" {
 			o.bystanderDelivered++
 
@@ -210,7 +214,7 @@ func run(c *Case) (*outcome, *vkit.Violation, error) {
 		return nil
 	}
 	cl.Net.Before = hook
-	cl.Net.After = func(m *vkit.Msg) error {
+	checkReply = func(m *vkit.Msg) error {
 		if m.Kind != "contribute" || m.Resp == nil {
 			return nil
 		}
@@ -239,6 +243,7 @@ func run(c *Case) (*outcome, *vkit.Violation, error) {
 
 		return nil
 	}
+	cl.Net.After = checkReply
 	resp, err := cl.Nodes[0].Generate(client, account, c.N, c.T)
 	if err != nil {
 		return o, nil, err
